@@ -21,6 +21,7 @@ pub struct SchedX {
     counter: u64,
     /// seed images built once per process (name → image, model, three consecutive leaves)
     seeds: BTreeMap<String, Arc<(DirImage, refmodel::Kv, Vec<Vec<Key>>)>>,
+    crash: Option<crate::crashx::CrashX>,
 }
 
 impl SchedX {
@@ -29,6 +30,7 @@ impl SchedX {
             scratch: Scratch::new("schedx"),
             counter: 0,
             seeds: BTreeMap::new(),
+            crash: None,
         }
     }
 }
@@ -1557,8 +1559,165 @@ impl SchedX {
         out
     }
 
+
+    /// P1 / P1k: the holder of the directory is ANOTHER PROCESS. While it is alive (idle, and in
+    /// the middle of a slow commit) every open from this process must fail, and a refused open of
+    /// an idle holder's directory must leave every file byte-identical; after the holder is killed
+    /// with SIGKILL (idle after an acknowledged commit: P1; in the middle of a commit: P1k) the
+    /// directory must open at once and hold the last acknowledged state (P1k: that or the
+    /// interrupted commit's).
+    fn run_two_processes(&mut self, name: &str) -> Outcome {
+        use std::io::{BufRead, BufReader, Write};
+        let mut out = Outcome::default();
+        out.nontrivial = true;
+        let dir = self.fresh();
+        let fail = |out: &mut Outcome, fp: &str, msg: String| {
+            if out.violation.is_none() {
+                out.violation = Some(Violation::new(format!("{fp}:{name}"), format!("harness {name}: {msg}")));
+            }
+        };
+        {
+            let n = open_nomt::<B3>(&dir, &cfg()).expect("create");
+            commit_kv(&n, &[(ka(), Some(val(0))), (kb(), Some(val(0)))]).expect("base commit");
+        }
+        let exe = std::env::current_exe().expect("current_exe");
+        let mut child = match std::process::Command::new(exe)
+            .args(["holder", &dir.display().to_string()])
+            .stdin(std::process::Stdio::piped())
+            .stdout(std::process::Stdio::piped())
+            .stderr(std::process::Stdio::null())
+            .spawn()
+        {
+            Ok(c) => c,
+            Err(e) => {
+                fail(&mut out, "machinery", format!("spawn: {e}"));
+                return out;
+            }
+        };
+        let mut stdin = child.stdin.take().unwrap();
+        let (tx, rx) = std::sync::mpsc::channel::<String>();
+        let stdout = child.stdout.take().unwrap();
+        std::thread::spawn(move || {
+            for l in BufReader::new(stdout).lines().flatten() {
+                if tx.send(l).is_err() {
+                    break;
+                }
+            }
+        });
+        let wait_line = |want: &str, secs: u64| -> bool {
+            let t0 = Instant::now();
+            while t0.elapsed() < Duration::from_secs(secs) {
+                if let Ok(l) = rx.recv_timeout(Duration::from_millis(50)) {
+                    if l == want {
+                        return true;
+                    }
+                }
+            }
+            false
+        };
+        let try_open = |cf: &Cfg| -> Result<(), String> {
+            match std::panic::catch_unwind(|| open_nomt::<B3>(&dir, cf)) {
+                Ok(Ok(n)) => {
+                    drop(n);
+                    Err("a second process opened the directory while the holder process is alive".into())
+                }
+                Ok(Err(_)) => Ok(()),
+                Err(_) => Err("Nomt::open panicked instead of returning an error while the holder process is alive".into()),
+            }
+        };
+        let mut other = cfg();
+        other.buckets = 128;
+        other.rollback = false;
+        'run: {
+            if !wait_line("READY", 20) {
+                fail(&mut out, "machinery", "the holder process did not get ready".into());
+                break 'run;
+            }
+            // 1. holder idle (it has committed v1): refused, and nothing on disk changes
+            let before = DirImage::snapshot(&dir).expect("snapshot");
+            for cf in [cfg(), other.clone()] {
+                out.transitions += 1;
+                if let Err(m) = try_open(&cf) {
+                    fail(&mut out, "two-handles", m);
+                    break 'run;
+                }
+            }
+            let after = DirImage::snapshot(&dir).expect("snapshot");
+            let d = before.diff(&after);
+            if !d.is_empty() {
+                fail(&mut out, "refused-open-modified-files", format!("an open refused because another process holds the directory changed files: {d:?}"));
+                break 'run;
+            }
+            out.goals.push("refused-while-other-process-idle");
+            // 2. holder in the middle of a slow commit (v2): still refused
+            let _ = stdin.write_all(b"commit\n");
+            let _ = stdin.flush();
+            let t0 = Instant::now();
+            let mut attempts = 0;
+            let mut done = false;
+            while t0.elapsed() < Duration::from_secs(20) {
+                if name == "P1k" && attempts >= 3 {
+                    break;
+                }
+                if let Ok(l) = rx.recv_timeout(Duration::from_millis(3)) {
+                    if l == "DONE" {
+                        done = true;
+                        break;
+                    }
+                }
+                out.transitions += 1;
+                attempts += 1;
+                if let Err(m) = try_open(&cfg()) {
+                    fail(&mut out, "two-handles", format!("{m} (the holder was in the middle of a commit)"));
+                    break 'run;
+                }
+            }
+            if attempts > 0 {
+                out.goals.push("refused-while-other-process-commits");
+            }
+            if name == "P1" && !done {
+                fail(&mut out, "machinery", "the holder's commit did not finish within 20 s".into());
+                break 'run;
+            }
+            // 3. the holder dies (SIGKILL): the directory opens at once, nothing acknowledged is lost
+            let _ = child.kill();
+            let _ = child.wait();
+            out.goals.push(if done { "holder-killed-idle" } else { "holder-killed-mid-commit" });
+            match std::panic::catch_unwind(|| open_nomt::<B3>(&dir, &cfg())) {
+                Err(_) => fail(&mut out, "open-after-death-panic", "Nomt::open panicked on the directory of a killed holder".into()),
+                Ok(Err(e)) => fail(&mut out, "open-after-death-failed", format!("the holder process was killed, but the directory does not open: {e:#}")),
+                Ok(Ok(n)) => {
+                    let a = n.read(ka()).ok().flatten().map(|v| v[0]);
+                    let b = n.read(kb()).ok().flatten().map(|v| v[0]);
+                    let ok = if done { a == Some(2) && b == Some(2) } else { a == b && (a == Some(1) || a == Some(2)) };
+                    if !ok {
+                        fail(&mut out, "state-after-death", format!("after the holder was killed ({}) the directory holds ka=v{a:?} kb=v{b:?}", if done { "its commit of v2 had been acknowledged" } else { "in the middle of its commit of v2 on v1" }));
+                    } else if {
+                        // the 70 000-byte value belongs to the v2 commit: all or nothing
+                        let mut big = ka();
+                        big[31] ^= 0x55;
+                        let got = n.read(big).ok().flatten();
+                        if a == Some(2) { got != Some(vec![7u8; 70_000]) } else { got.is_some() }
+                    } {
+                        fail(&mut out, "state-after-death", format!("after the holder was killed ka=v{a:?} but the large value of the v2 commit is {}", if a == Some(2) { "missing or damaged" } else { "present" }));
+                    } else if let Err(e) = commit_kv(&n, &[(ka(), Some(val(3))), (kb(), Some(val(3)))]) {
+                        fail(&mut out, "commit-after-death", format!("the new holder cannot commit: {e:#}"));
+                    } else {
+                        out.goals.push("reopened-after-holder-death");
+                    }
+                }
+            }
+        }
+        let _ = child.kill();
+        let _ = child.wait();
+        out
+    }
+
     fn run_case(&mut self, prop: &str, case: &Value) -> Outcome {
         let name = case["harness"].as_str().unwrap().to_string();
+        if name == "P1" || name == "P1k" {
+            return self.run_two_processes(&name);
+        }
         if name == "L1" || name == "L2" {
             return self.run_late_writers(&name);
         }
@@ -1635,8 +1794,8 @@ impl Engine for SchedX {
                 "schedx: closed harnesses of 2–3 real threads on two colliding keys (same value leaf, same merkle page), values stamped with the writer's version, rollback enabled: H1 reader∥blocking writer; H2 reader∥non-blocking writer (prepared changeset, retried blocking when handed back); H3/H3nb/H3ov two writers with changesets on one base (blocking / non-blocking / overlay) followed by reopen and rollback(1); H4 reader∥rollback; H5 reader∥writer∥writer; H6 one thread with two overlapping sessions∥writer; H6w one thread, warm-up on and one commit worker, two overlapping sessions, the second one finished while the first is alive; H8/H8ov/H8r a changeset or overlay prepared on the current state ∥ rollback(1) [∥ a reader]: the writers serialise — commit then rollback (final = the state before the commit, one further rollback possible) or rollback then commit (the changeset is refused, final = the rolled-back state); H7 two threads proving different keys (present and absent) through ONE shared session on a cold store, with scheduling points at every I/O submission and every wait for a completion of the calling threads (the scheduler lets outstanding reads complete before it decides, so the enabled set does not depend on I/O speed). EVERY schedule of the visible points (API lock acquisitions with parking_lot's writer-preferring FIFO fairness modelled in the scheduler, the read-transaction wait, harness points between session operations) with ≤c preemptions is executed on a fresh store, c = 0,1,2 (thorough 3). Oracle per schedule: terminates (no enabled thread = deadlock); all reads and the proof of one session agree with one committed version and with session.prev_root(); exactly one of two competing changesets wins; final state, root and state after reopen are the winner's; rollback(1) restores the base. One case = one harness × one bound; evaluations = cases, transitions = scheduler steps, states = distinct schedules (trace digests).",
             ),
             "C20" => (
-                vec!["O1", "O2", "O2x3", "O3", "O4", "L1", "L2", "L3", "L4"],
-                "schedx: O1 two threads open one existing directory concurrently; O2 / O2x3 two / three threads open one non-existent directory (creation race) with different options; O3 a live handle ∥ a second opener that retries after the first is dropped; O4 a holder that drops ∥ two openers (three-party hand-over). L1 / L2 (rollback off / on; one fixed order of events, bounds do not apply): a commit on a full 4-bucket table that fails with bucket exhaustion while the value store has ≈60 pages to write, executed with every sync-pipeline task held back until somebody waits for it (a task nobody joins runs as late as possible); the handle is dropped, a second handle is opened, and every mutating or syncing file operation recorded after that open returned must come from the opening thread — 'all background writers of the old handle have finished'; the second handle shows the state before the failed commit and commits. L3: a commit whose hash-table write-out fails at its first page (injected) while ≈40 more page writes are queued on a slow device (2 ms per write): after drop and second open no page write of the old handle may be performed. L4: sessions with warm-up abandoned without finish, handle dropped: the directory must become openable again within 8 s. Every schedule of the open/create/lock/drop points (emptiness check, lock acquisition, creation of meta / hash table / value files, flock try and unlock, I/O-pool shutdown) with ≤c preemptions, c = 0,1,2 (thorough 3). Oracle: never two handles alive at once; a refused open returns an error and leaves every file byte-identical (holder idle); every successful opener's handle commits and reads back; whenever some opener succeeded, the directory afterwards opens and holds the last committed state (no racing opener may wipe or re-initialise it).",
+                vec!["O1", "O2", "O2x3", "O3", "O4", "L1", "L2", "L3", "L4", "P1", "P1k"],
+                "schedx: O1 two threads open one existing directory concurrently; O2 / O2x3 two / three threads open one non-existent directory (creation race) with different options; O3 a live handle ∥ a second opener that retries after the first is dropped; O4 a holder that drops ∥ two openers (three-party hand-over). L1 / L2 (rollback off / on; one fixed order of events, bounds do not apply): a commit on a full 4-bucket table that fails with bucket exhaustion while the value store has ≈60 pages to write, executed with every sync-pipeline task held back until somebody waits for it (a task nobody joins runs as late as possible); the handle is dropped, a second handle is opened, and every mutating or syncing file operation recorded after that open returned must come from the opening thread — 'all background writers of the old handle have finished'; the second handle shows the state before the failed commit and commits. L3: a commit whose hash-table write-out fails at its first page (injected) while ≈40 more page writes are queued on a slow device (2 ms per write): after drop and second open no page write of the old handle may be performed. L4: sessions with warm-up abandoned without finish, handle dropped: the directory must become openable again within 8 s. P1 / P1k: the holder is ANOTHER PROCESS (a child running the same binary): while it is idle every open from this process (same and different options) must fail and leave every file byte-identical; while it is in the middle of a slow commit opens must still fail; after it is killed with SIGKILL — idle after an acknowledged commit (P1) or in the middle of the commit (P1k) — the directory must open at once and hold the last acknowledged state (P1k: that or the interrupted commit's) and accept a commit. Process death at every file operation: for 12 (thorough: all) explicit histories of C03 the last operation is re-run in a child process that aborts right before its k-th file operation, for every k; the directory must open at once in this process and the new handle must commit. Every schedule of the open/create/lock/drop points (emptiness check, lock acquisition, creation of meta / hash table / value files, flock try and unlock, I/O-pool shutdown) with ≤c preemptions, c = 0,1,2 (thorough 3). Oracle: never two handles alive at once; a refused open returns an error and leaves every file byte-identical (holder idle); every successful opener's handle commits and reads back; whenever some opener succeeded, the directory afterwards opens and holds the last committed state (no racing opener may wipe or re-initialise it).",
             ),
             _ => panic!("schedx has no plan for {prop}"),
         };
@@ -1649,11 +1808,23 @@ impl Engine for SchedX {
                     continue;
                 }
                 // fixed-order harnesses: once
-                if (h.starts_with('L') || *h == "H6w") && b > 0 {
+                if (h.starts_with('L') || h.starts_with('P') || *h == "H6w") && b > 0 {
                     continue;
                 }
                 cases.push(json!({"harness": h, "bound": b, "max_exec": if thorough { 200000 } else { 4000 }, "budget_s": if thorough { 1500 } else { 40 }}));
             }
+        }
+        if prop == "C20" {
+            // the holder dies (process abort) right before each file operation of an operation:
+            // the kernel drops its lock, the directory must open at once
+            let mut ks = crate::plans::kill_cases(thorough);
+            if !thorough {
+                ks.truncate(12);
+            }
+            for k in ks.iter_mut() {
+                k["nested"] = json!(false);
+            }
+            cases.extend(ks);
         }
         let mut p = Plan::new(cases, rule);
         p.budget_s = if thorough { 1700 } else { 55 };
@@ -1665,8 +1836,49 @@ impl Engine for SchedX {
     }
 
     fn run(&mut self, prop: &str, case: &Value) -> Outcome {
+        if case.get("mode").is_some() {
+            // process-death cases are executed by the crash engine
+            return self.crash.get_or_insert_with(crate::crashx::CrashX::new).run(prop, case);
+        }
         self.run_case(prop, case)
     }
+}
+
+/// `mc holder <dir>`: the other process of harnesses P1 / P1k. Opens the directory, commits v1,
+/// prints READY; on "commit" commits v2 on a slow device (a pause after every page write) and
+/// prints DONE; exits when stdin closes.
+pub fn holder_main(dir: &str) -> i32 {
+    use std::io::BufRead;
+    let n = match open_nomt::<B3>(Path::new(dir), &cfg()) {
+        Ok(n) => n,
+        Err(e) => {
+            println!("OPEN-FAILED {e:#}");
+            return 3;
+        }
+    };
+    if commit_kv(&n, &[(ka(), Some(val(1))), (kb(), Some(val(1)))]).is_err() {
+        println!("COMMIT-FAILED");
+        return 3;
+    }
+    println!("READY");
+    for l in std::io::stdin().lock().lines().flatten() {
+        if l == "commit" {
+            // ≈ 20 page writes (an overflow value) at 8 ms each
+            nomt::verif::io::set_page_write_delay(8000);
+            let mut kv = vec![(ka(), Some(val(2))), (kb(), Some(val(2)))];
+            let mut big = ka();
+            big[31] ^= 0x55;
+            kv.push((big, Some(vec![7u8; 70_000])));
+            if commit_kv(&n, &kv).is_err() {
+                println!("COMMIT-FAILED");
+                return 3;
+            }
+            nomt::verif::io::set_page_write_delay(0);
+            println!("DONE");
+        }
+    }
+    drop(n);
+    0
 }
 
 pub fn _hexkeep(k: &Key) -> String {
